@@ -8,7 +8,7 @@ for f in sorted(glob.glob('/verif/seeded/*/meta.json'), key=lambda p: (os.path.b
     tgt = m['breaks_property']
     others = [c for c in caught if c != tgt]
     cls = m['violation_classes'].get(tgt, [])
-    rows.append((m['id'], tgt, m['change'].split(':')[0][:70] if ':' in m['change'][:80] else m['change'][:70], 'yes' if tgt in caught else '**no**', '; '.join(cls)[:110], ', '.join(others) or '-'))
+    rows.append((m['id'], tgt, (m['change'][:88] + ('...' if len(m['change']) > 88 else '')).replace('|', '/'), 'yes' if tgt in caught else '**no**', ('; '.join(cls)[:120]).replace('|','/'), ', '.join(others) or '-'))
 print('| seed | breaks | change (short) | target check alarmed | classes reported by the target check | other checks that alarmed |')
 print('|------|--------|----------------|----------------------|--------------------------------------|---------------------------|')
 for r in rows:
